@@ -105,14 +105,21 @@ Fixpoint need_d (v : gval) : nat :=
   | VStruct _ _ fs =>
     3 + (fix go (l : list (name * gval)) : nat := match l with [] => 1 | (_, x) :: r => 1 + Nat.max (need_d x) (go r) end) fs
   | VSlice _ _ l => 2 + (fix go (l : list gval) : nat := match l with [] => 1 | x :: r => 1 + Nat.max (need_d x) (go r) end) l
+  | VMap _ _ es =>
+    2 + (fix go (l : list (gval * gval)) : nat :=
+           match l with [] => 2 | (k, x) :: r => 1 + Nat.max (need_d k) (Nat.max (need_d x) (go r)) end) es
   | VBytes _ => 2
   | _ => 1
   end%nat.
+Fixpoint need_dentries (l : list (gval * gval)) : nat :=
+  match l with [] => 2 | (k, x) :: r => 1 + Nat.max (need_d k) (Nat.max (need_d x) (need_dentries r)) end%nat.
 Fixpoint need_ditems (l : list gval) : nat := match l with [] => 1 | x :: r => 1 + Nat.max (need_d x) (need_ditems r) end%nat.
 Lemma need_d_struct a ty fs : need_d (VStruct a ty fs) = (3 + need_ditems (map snd fs))%nat.
 Proof. cbn [need_d]. apply (f_equal (fun k => (3 + k)%nat)). induction fs as [|[n x] r IH]; cbn [map snd need_ditems]; [reflexivity|]. rewrite <- IH. reflexivity. Qed.
 Lemma need_d_slice a ty l : need_d (VSlice a ty l) = (2 + need_ditems l)%nat.
 Proof. cbn [need_d]. apply (f_equal (fun k => (2 + k)%nat)). induction l as [|x r IH]; cbn [need_ditems]; [reflexivity|]. rewrite <- IH. reflexivity. Qed.
+Lemma need_d_map a ty es : need_d (VMap a ty es) = (2 + need_dentries es)%nat.
+Proof. cbn [need_d]. apply (f_equal (fun k => (2 + k)%nat)). induction es as [|[k x] r IH]; cbn [need_dentries]; [reflexivity|]. rewrite <- IH. reflexivity. Qed.
 Lemma need_d_pos v : (1 <= need_d v)%nat.
 Proof. destruct v; cbn [need_d]; lia. Qed.
 
@@ -153,6 +160,12 @@ Variable ty_of : Z -> name.     (* the struct type of the object at an address *
 Definition fields_findable (gfs : list (name * gtype)) : Prop :=
   NoDup (map fst gfs) /\ forall n t, In (n, t) gfs -> find_field gfs (lower_name n) = Some (n, t).
 
+(* a map without a wire type name comes back untyped when it is read as a value on its own or as a
+   list element (known finding C01-F1); as a map-typed struct field it is read with the field's types *)
+Definition elem_pos_ok (v : gval) : Prop := match v with VMap _ ty _ => nm_lookup nm ty <> None | _ => True end.
+(* map keys: strings and integers *)
+Definition key_ok (k : gval) : Prop := match k with VStr _ | VInt _ _ => True | _ => False end.
+Definition key_img (k : gval) : dval := match k with VStr rs => DStr rs | VInt k z => DInt k z | _ => DNil end.
 (* the values of the fragment, at the Go type of the position they occupy *)
 Inductive sgv : gtype -> gval -> Prop :=
 | sg_int k z : in_kind k z -> sgv (TInt k) (VInt k z)
@@ -163,7 +176,12 @@ Inductive sgv : gtype -> gval -> Prop :=
 | sg_time s n : year_ok s -> 0 <= n < 1000000000 -> sgv TTime (VTime s n)
 | sg_slice ty l e ltn : nm_lookup nm ty = Some ltn -> name_eqb interface_type_name (array_root_elem_name ty) = false ->
     tm_lookup tm ltn = Some (TSlice e) -> Forall valid_rune ltn -> e <> TIface -> Z.of_nat (length l) <= 2147483647 ->
-    Forall (sgv e) l -> sgv (TSlice e) (VSlice 0 ty l)                           (* a list not shared with another position *)
+    Forall (sgv e) l -> Forall elem_pos_ok l -> sgv (TSlice e) (VSlice 0 ty l)                           (* a list not shared with another position *)
+| sg_map ty es kt vt : kt <> TIface -> vt <> TIface ->
+    (forall mn, nm_lookup nm ty = Some mn -> Forall valid_rune mn /\ tm_lookup tm mn = Some (TMap kt vt)) ->
+    Forall key_ok (map fst es) -> NoDup (map fst es) ->
+    Forall (fun e => sgv kt (fst e) /\ sgv vt (snd e) /\ elem_pos_ok (snd e)) es ->
+    sgv (TMap kt vt) (VMap 0 ty es)                                              (* a map not shared with another position *)
 | sg_nilptr n : sgv (TPtr (TStruct n)) VNil
 | sg_seen a : sgv (TPtr (TStruct (ty_of a))) (VSeen RStruct a)
 | sg_struct a ty fs c gfs : a <> 0 -> ty_of a = ty -> nm_lookup nm ty = Some c -> tm_lookup tm c = Some (TStruct ty) ->
@@ -190,10 +208,17 @@ Inductive dg : list (Z * rkind) -> gval -> dval -> list rcell -> list (Z * rkind
     dg refs (VStruct a ty fs) (DPtr (length refs) ty) (RObj ty (Some (combine (map fst fs) ds)) :: cells) refs'
 | dg_slice refs ty l e ds cells refs' : dgs (refs ++ [(0, RSlice)]) l ds cells refs' ->
     dg refs (VSlice 0 ty l) (DSlice e ds) (RList (Some (DSlice e ds)) :: cells) refs'
+| dg_map0 refs ty kt vt : dg refs (VMap 0 ty []) (DMapV kt vt []) [] refs                 (* nil and empty maps: null on the wire *)
+| dg_map refs ty e es kt vt des cells refs' : dges (refs ++ [(0, Encoder.RMap)]) (e :: es) des cells refs' ->
+    dg refs (VMap 0 ty (e :: es)) (DMapV kt vt des) (Decoder.RMap (Some (DMapV kt vt des)) :: cells) refs'
 with dgs : list (Z * rkind) -> list gval -> list dval -> list rcell -> list (Z * rkind) -> Prop :=
 | dgs_nil refs : dgs refs [] [] [] refs
 | dgs_cons refs x r d ds c1 c2 refs1 refs2 : dg refs x d c1 refs1 -> dgs refs1 r ds c2 refs2 ->
-    dgs refs (x :: r) (d :: ds) (c1 ++ c2) refs2.
+    dgs refs (x :: r) (d :: ds) (c1 ++ c2) refs2
+with dges : list (Z * rkind) -> list (gval * gval) -> list (dval * dval) -> list rcell -> list (Z * rkind) -> Prop :=
+| dges_nil refs : dges refs [] [] [] refs
+| dges_cons refs k x r dk dx des c1 c2 c3 refs1 refs2 refs3 : dg refs k dk c1 refs1 -> dg refs1 x dx c2 refs2 -> dges refs2 r des c3 refs3 ->
+    dges refs ((k, x) :: r) ((dk, dx) :: des) (c1 ++ c2 ++ c3) refs3.
 
 Definition ref_tag (p : Z * rkind) : option name := match snd p with RStruct => Some (ty_of (fst p)) | _ => None end.
 Definition Inv (st : estate) (dst : dstate) : Prop :=
@@ -216,7 +241,8 @@ Definition rt_post (t : gtype) (v : gval) (st st' : estate) : Prop :=
        forall f, (need_d v <= f)%nat ->
          R_rf (readers_at te tm f) t dst (bs ++ rest) = Ok (d, rest, dst') /\
          (forall a ty fs, v = VStruct a ty fs -> R_rd (readers_at te tm f) dst (bs ++ rest) = Ok (d, rest, dst')) /\
-         (t <> TIface -> elem_step te (readers_at te tm f) t dst (bs ++ rest) = Ok (d, rest, dst'))).
+         (t <> TIface -> elem_pos_ok v ->
+            exists d0, R_rd (readers_at te tm f) dst (bs ++ rest) = Ok (d0, rest, dst') /\ forall heap, set_value te heap t d0 = Ok d)).
 Definition rt_ok (v : gval) : Prop := forall t st st',
   enm st = nm -> sgv t v -> cls_ok F (ecls st) -> write_data v st = Ok st' -> rt_post t v st st'.
 
@@ -233,14 +259,14 @@ Proof. reflexivity. Qed.
 Lemma rt_leaf t v st bs d :
   dg (erefs st) v d [] (erefs st) -> (forall a ty fs, v <> VStruct a ty fs) -> cls_ok F (ecls st) -> (1 <= length bs)%nat ->
   (forall R dst rest, rf_step te tm R t dst (bs ++ rest) = Ok (d, rest, dst)) ->
-  (forall f dst rest, elem_step te (readers_at te tm (S f)) t dst (bs ++ rest) = Ok (d, rest, dst)) ->
+  (forall f dst rest, exists d0, R_rd (readers_at te tm (S f)) dst (bs ++ rest) = Ok (d0, rest, dst) /\ forall heap, set_value te heap t d0 = Ok d) ->
   rt_post t v st (emit st bs).
 Proof.
   intros D NS C LB P PE. split; [exact C|]. split; [reflexivity|]. split; [split; cbn; lia|].
   exists bs, d, []. split; [apply ebytes_emit|]. split; [exact LB|]. split; [exact D|].
   intros _ dst rest I. exists dst. split; [exact I|]. split; [rewrite app_nil_r; reflexivity|].
   intros f Hf. pose proof (need_d_pos v). destruct f as [|f]; [lia|]. split; [rewrite rf_S; apply P|].
-  split; [intros a ty fs E; exfalso; eapply NS; exact E|]. intros _. apply PE.
+  split; [intros a ty fs E; exfalso; eapply NS; exact E|]. intros _ _. apply PE.
 Qed.
 Lemma elem_of_rd R t dst bs d0 d rest dst' : R_rd R dst bs = Ok (d0, rest, dst') -> set_value te (dheap dst') t d0 = Ok d -> t <> TIface ->
   elem_step te R t dst bs = Ok (d, rest, dst').
@@ -339,7 +365,7 @@ Proof.
   intros f Hf. pose proof (need_d_pos v). destruct f as [|f]; [lia|]. split; [|split].
   - rewrite rf_S. unfold rf_step. cbn [app]. rewrite rs_ref, RR. cbn [bind]. rewrite SV. reflexivity.
   - intros a0 ty fs E. rewrite rd_S. cbn [app]. rewrite rd_ref. exact RR.
-  - intros _. eapply elem_of_rd; [rewrite rd_S; cbn [app]; rewrite rd_ref; exact RR|exact SV|discriminate].
+  - intros _ _. eexists. split; [rewrite rd_S; cbn [app]; rewrite rd_ref; exact RR|]. intros heap. cbn [set_value]. rewrite name_eqb_refl'. reflexivity.
 Qed.
 
 (* ---- the fields of an object ---- *)
@@ -495,7 +521,7 @@ Proof.
     split; [|split].
     + rewrite rf_S. unfold rf_step. rewrite OT1, OA by lia. cbn [bind]. rewrite SV. reflexivity.
     + intros a0 ty0 fs1 _. exact RD.
-    + intros _. eapply elem_of_rd; [exact RD|exact SV|discriminate].
+    + intros _ _. eexists. split; [exact RD|]. intros heap. cbn [set_value]. rewrite name_eqb_refl'. reflexivity.
   - (* a new class: its definition comes first *)
     cbn [ecls st1] in PC1, PC2.
     set (idx := Z.of_nat (length (ecls st))) in *.
@@ -522,7 +548,7 @@ Proof.
     split; [|split].
     + rewrite rf_S. unfold rf_step. rewrite rs_classdef, RC. cbn [bind snd]. rewrite rd_S, OT2, OA by lia. cbn [bind]. rewrite SV. reflexivity.
     + intros a0 ty0 fs1 _. exact RD.
-    + intros _. eapply elem_of_rd; [exact RD|exact SV|discriminate].
+    + intros _ _. eexists. split; [exact RD|]. intros heap. cbn [set_value]. rewrite name_eqb_refl'. reflexivity.
 Qed.
 
 (* ---- further leaves: doubles, byte slices, timestamps ---- *)
@@ -542,7 +568,7 @@ Proof.
   intros _ dst rest I. exists dst. split; [exact I|]. split; [rewrite app_nil_r; reflexivity|].
   intros f Hf. cbn [need_d] in Hf. destruct f as [|[|f]]; try lia. split; [|split; [intros a ty fs X; discriminate|]].
   - rewrite rf_S. unfold rf_step. rewrite rl_S. unfold rl_step. rewrite E. cbn [app bind]. rewrite T, D. cbn [bind set_slice]. reflexivity.
-  - intros _. eapply elem_of_rd; [rewrite rd_S; apply rdv_binary|reflexivity|discriminate].
+  - intros _ _. eexists. split; [rewrite rd_S; apply rdv_binary|]. intros heap. reflexivity.
 Qed.
 Lemma date_head s n : time_is_zero s n = false -> exists t tl, gencodeDate s n = t :: tl /\ (t = 74 \/ t = 75).
 Proof.
@@ -562,7 +588,7 @@ Proof.
   - apply name_eqb_refl'.
   - rewrite IHt1, IHt2. reflexivity.
 Qed.
-Lemma elems_rt e : e <> TIface -> forall l, Forall rt_ok l -> Forall (sgv e) l ->
+Lemma elems_rt e : e <> TIface -> forall l, Forall rt_ok l -> Forall (sgv e) l -> Forall elem_pos_ok l ->
   forall st st', enm st = nm -> cls_ok F (ecls st) -> write_items l st = Ok st' ->
   cls_ok F (ecls st') /\ enm st' = enm st /\ grows st st' /\
   exists bs ds cells, ebytes st' = ebytes st ++ bs /\ (length l <= length bs)%nat /\ dgs (erefs st) l ds cells (erefs st') /\
@@ -570,16 +596,16 @@ Lemma elems_rt e : e <> TIface -> forall l, Forall rt_ok l -> Forall (sgv e) l -
        exists dst', Inv st' dst' /\ dheap dst' = dheap dst ++ cells /\
        forall f, (need_ditems l <= f)%nat -> R_rn (readers_at te tm f) e (length l) dst (bs ++ rest) = Ok (ds, rest, dst')).
 Proof.
-  intros NI. induction l as [|x r IH]; intros HF HS st st' En C W.
+  intros NI. induction l as [|x r IH]; intros HF HS HP st st' En C W.
   - cbn in W. inversion W; subst st'. split; [exact C|]. split; [reflexivity|]. split; [apply grows_refl|].
     exists [], [], []. split; [rewrite app_nil_r; reflexivity|]. split; [cbn; lia|]. split; [constructor|].
     intros _ dst rest I. exists dst. split; [exact I|]. split; [rewrite app_nil_r; reflexivity|].
     intros f Hf. cbn [need_ditems] in Hf. destruct f as [|f]; [lia|]. reflexivity.
-  - inversion HF as [|? ? Hx Hr]; subst. inversion HS as [|? ? Sx Sr]; subst.
+  - inversion HF as [|? ? Hx Hr]; subst. inversion HS as [|? ? Sx Sr]; subst. inversion HP as [|? ? EPx EPr]; subst.
     cbn [write_items] in W. destruct (write_data x st) as [s1| | |] eqn:E1; try discriminate.
     destruct (Hx e st s1 En Sx C E1) as (C1 & N1 & G1 & b1 & d1 & c1 & B1 & LB1 & D1 & P1).
     assert (En1 : enm s1 = nm) by (rewrite N1; exact En).
-    destruct (IH Hr Sr s1 st' En1 C1 W) as (C2 & N2 & G2 & b2 & ds & c2 & B2 & L2 & D2 & P2).
+    destruct (IH Hr Sr EPr s1 st' En1 C1 W) as (C2 & N2 & G2 & b2 & ds & c2 & B2 & L2 & D2 & P2).
     split; [exact C2|]. split; [rewrite N2; exact N1|]. split; [eapply grows_trans; eassumption|].
     exists (b1 ++ b2), (d1 :: ds), (c1 ++ c2). split; [rewrite B2, B1, <- app_assoc; reflexivity|].
     split; [cbn [length]; rewrite app_length; lia|]. split; [econstructor; eassumption|].
@@ -588,7 +614,8 @@ Proof.
     destruct (P2 Sm dst1 rest I1) as (dst2 & I2 & H2' & V2).
     exists dst2. split; [exact I2|]. split; [rewrite H2', H1, <- app_assoc; reflexivity|].
     intros f Hf. cbn [need_ditems] in Hf. destruct f as [|f]; [lia|]. cbn [length]. rewrite rn_S. cbn [rn_step].
-    rewrite <- app_assoc. destruct (V1 f ltac:(lia)) as (_ & _ & V1c). rewrite (V1c NI). cbn [bind]. rewrite V2 by lia. reflexivity.
+    rewrite <- app_assoc. destruct (V1 f ltac:(lia)) as (_ & _ & V1c). destruct (V1c NI EPx) as (d0 & RD0 & SV0).
+    rewrite (elem_of_rd _ e dst _ d0 d1 _ dst1 RD0 (SV0 _) NI). cbn [bind]. rewrite V2 by lia. reflexivity.
 Qed.
 
 Definition list_hdr (ltn : name) (n : Z) : bytes :=
@@ -655,11 +682,11 @@ Qed.
 Lemma rt_slice ty l e ltn st st' :
   nm_lookup nm ty = Some ltn -> name_eqb interface_type_name (array_root_elem_name ty) = false ->
   tm_lookup tm ltn = Some (TSlice e) -> Forall valid_rune ltn -> e <> TIface -> Z.of_nat (length l) <= 2147483647 ->
-  Forall (sgv e) l -> Forall rt_ok l -> enm st = nm -> cls_ok F (ecls st) ->
+  Forall (sgv e) l -> Forall elem_pos_ok l -> Forall rt_ok l -> enm st = nm -> cls_ok F (ecls st) ->
   write_items l (list_header {| ecls := ecls st; erefs := erefs st ++ [(0, RSlice)]; enm := enm st; eout := eout st |} ty (Z.of_nat (length l))) = Ok st' ->
   rt_post (TSlice e) (VSlice 0 ty l) st st'.
 Proof.
-  intros NL NI TM V NE LN HS HR En C W.
+  intros NL NI TM V NE LN HS HP HR En C W.
   set (st1 := {| ecls := ecls st; erefs := erefs st ++ [(0, RSlice)]; enm := enm st; eout := eout st |}) in *.
   set (n := Z.of_nat (length l)) in *.
   assert (NL1 : nm_lookup (enm st1) ty = Some ltn) by (cbn [enm st1]; rewrite En; exact NL).
@@ -667,7 +694,7 @@ Proof.
   set (st2 := list_header st1 ty n) in *.
   assert (En2 : enm st2 = nm) by (rewrite P2; exact En).
   assert (C2' : cls_ok F (ecls st2)) by (rewrite P3; exact C).
-  destruct (elems_rt e NE l HR HS st2 st' En2 C2' W) as (C2 & N2 & G2 & b2 & ds & c2 & B2 & L2 & D2 & PE).
+  destruct (elems_rt e NE l HR HS HP st2 st' En2 C2' W) as (C2 & N2 & G2 & b2 & ds & c2 & B2 & L2 & D2 & PE).
   split; [exact C2|]. split; [rewrite N2, P2; reflexivity|].
   split; [destruct G2 as [G21 G22]; split; [rewrite P1 in G21; cbn [erefs st1] in G21; rewrite app_length in G21; cbn in G21; lia|rewrite P3 in G22; exact G22]|].
   exists (list_hdr ltn n ++ b2), (DSlice e ds), (RList (Some (DSlice e ds)) :: c2).
@@ -705,7 +732,213 @@ Proof.
   split; [|split].
   - rewrite rf_S. unfold rf_step. rewrite rl_S, D1. cbn [bind set_slice]. rewrite gtype_eqb_refl. reflexivity.
   - intros a0 ty0 fs0 X. discriminate.
-  - intros _. eapply elem_of_rd; [exact RD|cbn [set_value]; rewrite gtype_eqb_refl; reflexivity|exact (fun X => ltac:(discriminate))].
+  - intros _ _. eexists. split; [exact RD|]. intros heap. cbn [set_value]. rewrite gtype_eqb_refl. reflexivity.
+Qed.
+
+(* ---- maps ---- *)
+Lemma re_S f kt vt acc dst bs : R_re (readers_at te tm (S f)) kt vt acc dst bs = re_step te (readers_at te tm f) kt vt acc dst bs.
+Proof. reflexivity. Qed.
+Lemma rm_S f t dst bs : R_rm (readers_at te tm (S f)) t dst bs = rm_step te (readers_at te tm f) t dst bs.
+Proof. reflexivity. Qed.
+Lemma entries_put_fresh acc k v : (forall k' v', In (k', v') acc -> dkey_eqb k k' = false) -> entries_put acc k v = acc ++ [(k, v)].
+Proof.
+  induction acc as [|[k0 v0] r IH]; intros H; cbn [entries_put app]; [reflexivity|].
+  rewrite (H k0 v0 (or_introl eq_refl)). rewrite IH; [reflexivity|]. intros k' v' I. apply (H k' v'). right. exact I.
+Qed.
+Lemma ikind_eqb_eq a b : ikind_eqb a b = true -> a = b.
+Proof. destruct a, b; cbn; intros H; try discriminate; reflexivity. Qed.
+Lemma key_img_eqb k1 k2 : key_ok k1 -> key_ok k2 -> dkey_eqb (key_img k1) (key_img k2) = true -> k1 = k2.
+Proof.
+  destruct k1; cbn; try contradiction; destruct k2; cbn; try contradiction; intros _ _ H; try discriminate.
+  - apply andb_true_iff in H. destruct H as [H1 H2]. apply ikind_eqb_eq in H1. subst. f_equal. lia.
+  - apply name_eqb_true in H. subst. reflexivity.
+Qed.
+(* a key: written by one emit, read back by ReadData as a non-null scalar that SetValue turns into the key *)
+Lemma key_rt kt k st st' : key_ok k -> sgv kt k -> write_data k st = Ok st' ->
+  exists bs d0, st' = emit st bs /\ (1 <= length bs)%nat /\ (match d0 with DStr _ | DInt _ _ => True | _ => False end) /\
+    (forall R dst rest, rd_step tm R dst (bs ++ rest) = Ok (d0, rest, dst)) /\
+    (forall heap, set_value te heap kt d0 = Ok (key_img k)) /\ hashable (key_img k) = true.
+Proof.
+  intros KO Hs W. destruct k; cbn in KO; try contradiction; inversion Hs; subst; cbn [write_data] in W.
+  - destruct (enc_kind k z) as [bs| | |] eqn:E; inversion W; subst st'.
+    assert (KI : k = KInt -> in_i32 z).
+    { intros ->. cbn [enc_kind] in E. unfold between in E. destruct ((-2147483648 <=? z) && (z <=? 2147483647)) eqn:B; [|discriminate]. unfold in_i32. lia. }
+    assert (BS : bs = if kind_wire_int k then gencodeInt (swrap 32 z) else gencodeLong (swrap 64 z)).
+    { destruct k; cbn [enc_kind kind_wire_int] in *; try (destruct (between _ _ _)); inversion E; reflexivity. }
+    exists bs, (if kind_wire_int k then DInt KInt32 (swrap 32 z) else DInt KInt64 (swrap 64 z)).
+    split; [reflexivity|]. split.
+    { rewrite BS. destruct (kind_wire_int k).
+      - destruct (int_first_tag _ (swrap32_range z)) as (t0 & r0 & E0 & _). rewrite E0. cbn; lia.
+      - destruct (long_first_tag _ (swrap64_range z)) as (t0 & r0 & E0 & _). rewrite E0. cbn; lia. }
+    split; [destruct (kind_wire_int k); exact I|]. split.
+    { intros R dst rest. rewrite BS. destruct (kind_wire_int k); [apply rdv_int; apply swrap32_range|apply rdv_long; apply swrap64_range]. }
+    split; [intros heap; apply sv_int; assumption|reflexivity].
+  - inversion W; subst st'. match goal with H : Forall valid_rune rs |- _ => pose proof H as V end.
+    destruct (string_denotes rs [] V) as (t0 & tl0 & E0 & _).
+    exists (encode_string rs), (DStr rs). split; [reflexivity|]. split; [rewrite E0; cbn; lia|]. split; [exact I|].
+    split; [intros R dst rest; apply rdv_str; exact V|]. split; [intros heap; reflexivity|reflexivity].
+Qed.
+Lemma re_step_entry R kt vt acc st bs d0k r1 st1 : R_rd R st bs = Ok (d0k, r1, st1) ->
+  (match d0k with DStr _ | DInt _ _ => True | _ => False end) ->
+  re_step te R kt vt acc st bs =
+  (do (y, st2) <- R_rd R st1 r1 ;; let '(v, r2) := y in
+   do k' <- (match kt with TIface => Ok d0k | _ => set_value te (dheap st2) kt d0k end) ;;
+   do v' <- (match vt with TIface => Ok v | _ => set_value te (dheap st2) vt v end) ;;
+   if hashable k' then R_re R kt vt (entries_put acc k' v') st2 r2 else Err ECodec).
+Proof. intros H S. unfold re_step. rewrite H. destruct d0k; try contradiction; reflexivity. Qed.
+
+Lemma entries_rt kt vt : kt <> TIface -> vt <> TIface -> forall es,
+  Forall (fun e => rt_ok (snd e)) es -> Forall key_ok (map fst es) -> NoDup (map fst es) ->
+  Forall (fun e => sgv kt (fst e) /\ sgv vt (snd e) /\ elem_pos_ok (snd e)) es ->
+  forall st st', enm st = nm -> cls_ok F (ecls st) -> write_entries es st = Ok st' ->
+  cls_ok F (ecls st') /\ enm st' = enm st /\ grows st st' /\
+  exists bs dvs cells, ebytes st' = ebytes st ++ bs /\ length dvs = length es /\
+    dges (erefs st) es (combine (map key_img (map fst es)) dvs) cells (erefs st') /\
+    (small st' -> forall dst rest, Inv st dst ->
+       exists dst', Inv st' dst' /\ dheap dst' = dheap dst ++ cells /\
+       forall f acc, (need_dentries es <= f)%nat ->
+         (forall k, In k (map fst es) -> forall k' v', In (k', v') acc -> dkey_eqb (key_img k) k' = false) ->
+         R_re (readers_at te tm f) kt vt acc dst (bs ++ 90 :: rest) = Ok (acc ++ combine (map key_img (map fst es)) dvs, rest, dst')).
+Proof.
+  intros NK NV. induction es as [|[k x] r IH]; intros HF KO ND HS st st' En C W.
+  - cbn in W. inversion W; subst st'. split; [exact C|]. split; [reflexivity|]. split; [apply grows_refl|].
+    exists [], [], []. split; [rewrite app_nil_r; reflexivity|]. split; [reflexivity|]. split; [constructor|].
+    intros _ dst rest I. exists dst. split; [exact I|]. split; [rewrite app_nil_r; reflexivity|].
+    intros f acc Hf _. cbn [need_dentries] in Hf. destruct f as [|[|f]]; try lia. rewrite re_S. cbn [app map combine]. rewrite app_nil_r.
+    unfold re_step. rewrite rd_S. reflexivity.
+  - inversion HF as [|? ? Hx Hr]; subst. cbn [map fst] in KO, ND. inversion KO as [|? ? KOk KOr]; subst. inversion ND as [|? ? NIk NDr]; subst.
+    inversion HS as [|? ? (Sk & Sx & EPx) Sr]; subst. cbn [fst snd] in *.
+    cbn [write_entries] in W. destruct (write_data k st) as [s1| | |] eqn:E1; try discriminate.
+    destruct (write_data x s1) as [s2| | |] eqn:E2; try discriminate.
+    destruct (key_rt kt k st s1 KOk Sk E1) as (bk & d0k & ES1 & LBk & SHk & RDk & SVk & HSk). subst s1.
+    destruct (Hx vt (emit st bk) s2 En Sx C E2) as (C2 & N2 & G2 & bx & dx & cx & B2 & LBx & D2 & P2).
+    assert (En2 : enm s2 = nm) by (rewrite N2; exact En).
+    destruct (IH Hr KOr NDr Sr s2 st' En2 C2 W) as (C3 & N3 & G3 & br & dvs & cr & B3 & L3 & D3 & P3).
+    split; [exact C3|]. split; [rewrite N3, N2; reflexivity|].
+    split; [eapply grows_trans; [|exact G3]; destruct G2 as [A1 A2]; split; cbn [emit erefs ecls] in *; lia|].
+    exists (bk ++ bx ++ br), (dx :: dvs), (cx ++ cr).
+    split; [rewrite B3, B2, ebytes_emit, <- !app_assoc; reflexivity|]. split; [cbn [length]; rewrite L3; reflexivity|].
+    split.
+    { cbn [map fst combine]. change (cx ++ cr) with ([] ++ cx ++ cr).
+      eapply (dges_cons (erefs st) k x r (key_img k) dx _ [] cx cr (erefs st) (erefs s2) (erefs st')); [|exact D2|exact D3].
+      destruct k; cbn in KOk; try contradiction; cbn [key_img]; constructor. }
+    intros Sm dst rest I.
+    assert (I0 : Inv (emit st bk) dst) by exact I.
+    destruct (P2 (small_back _ _ G3 Sm) dst (br ++ 90 :: rest) I0) as (dst2 & I2 & H2' & V2).
+    destruct (P3 Sm dst2 rest I2) as (dst3 & I3 & H3' & V3).
+    exists dst3. split; [exact I3|]. split; [rewrite H3', H2', <- app_assoc; reflexivity|].
+    intros f acc Hf FR. cbn [need_dentries] in Hf. destruct f as [|f]; [lia|]. rewrite re_S.
+    pose proof (need_d_pos k). destruct f as [|f']; [lia|].
+    rewrite <- !app_assoc.
+    rewrite (re_step_entry _ kt vt acc dst _ d0k (bx ++ br ++ 90 :: rest) dst); [|rewrite rd_S; apply RDk|exact SHk].
+    destruct (V2 (S f') ltac:(lia)) as (_ & _ & V2c). destruct (V2c NV EPx) as (d0x & RDx & SVx).
+    rewrite RDx. cbn [bind].
+    replace (match kt with TIface => Ok d0k | _ => set_value te (dheap dst2) kt d0k end) with (Ok (key_img k) : result dval)
+      by (destruct kt; try (symmetry; apply SVk); contradiction).
+    cbn [bind].
+    replace (match vt with TIface => Ok d0x | _ => set_value te (dheap dst2) vt d0x end) with (Ok dx : result dval)
+      by (destruct vt; try (symmetry; apply SVx); contradiction).
+    cbn [bind]. rewrite HSk.
+    rewrite entries_put_fresh by (intros k' v' I'; apply (FR k (or_introl eq_refl) k' v' I')).
+    rewrite (V3 (S f') (acc ++ [(key_img k, dx)])); [cbn [map fst combine]; rewrite <- app_assoc; reflexivity|lia|].
+    intros k2 I2' k' v' I'. apply in_app_or in I'. destruct I' as [I'|[I'|[]]].
+    + apply (FR k2 (or_intror I2') k' v' I').
+    + inversion I'; subst k' v'. destruct (dkey_eqb (key_img k2) (key_img k)) eqn:EQ; [|reflexivity].
+      exfalso. apply NIk. rewrite <- (key_img_eqb k2 k); [exact I2'| |exact KOk|exact EQ].
+      rewrite Forall_forall in KOr. apply KOr. exact I2'.
+Qed.
+
+Definition map_hdr (ty : name) : bytes := match nm_lookup nm ty with Some mn => 77 :: encode_string mn | None => [72] end.
+Lemma map_prefix_bytes st1 ty : enm st1 = nm ->
+  let st2 := map_prefix st1 ty in
+  erefs st2 = erefs st1 /\ enm st2 = enm st1 /\ ecls st2 = ecls st1 /\ ebytes st2 = ebytes st1 ++ map_hdr ty.
+Proof.
+  intros En. cbv zeta. unfold map_prefix, map_hdr. replace (nm_lookup (enm st1) ty) with (nm_lookup nm ty) by (rewrite En; reflexivity).
+  destruct (nm_lookup nm ty); (split; [reflexivity|]); (split; [reflexivity|]); (split; [reflexivity|]).
+  - rewrite !ebytes_emit, <- app_assoc. reflexivity.
+  - apply ebytes_emit.
+Qed.
+Definition map_dstT (dst : dstate) (ty : name) : dstate :=
+  match nm_lookup nm ty with Some mn => {| dtypes := dtypes dst ++ [mn]; dcls := dcls dst; dheap := dheap dst |} | None => dst end.
+Lemma map_dec R dst ty kt vt tail :
+  (forall mn, nm_lookup nm ty = Some mn -> Forall valid_rune mn /\ tm_lookup tm mn = Some (TMap kt vt)) ->
+  dcls (map_dstT dst ty) = dcls dst /\ dheap (map_dstT dst ty) = dheap dst /\
+  rm_step te R (TMap kt vt) dst (map_hdr ty ++ tail) = map_body R kt vt (map_dstT dst ty) tail /\
+  (nm_lookup nm ty <> None -> rd_step tm R dst (map_hdr ty ++ tail) = map_body R kt vt (map_dstT dst ty) tail).
+Proof.
+  intros HM. unfold map_hdr, map_dstT. destruct (nm_lookup nm ty) as [mn|] eqn:NL.
+  - destruct (HM mn eq_refl) as [V TM]. split; [reflexivity|]. split; [reflexivity|].
+    cbn [app]. split.
+    + transitivity (do (x, st1) <- read_type dst (encode_string mn ++ tail) ;; map_body R kt vt st1 (snd x)); [reflexivity|].
+      rewrite read_type_str by exact V. reflexivity.
+    + intros _. transitivity (do (x, st1) <- read_type dst (encode_string mn ++ tail) ;; let '(mty, r1) := x in
+                               match tm_lookup tm mty with Some (TMap kt0 vt0) => map_body R kt0 vt0 st1 r1 | Some _ => Unmodelled | None => Err ECodec end); [reflexivity|].
+      rewrite read_type_str by exact V. cbn [bind]. rewrite TM. reflexivity.
+  - split; [reflexivity|]. split; [reflexivity|]. split; [reflexivity|]. intros X. contradiction.
+Qed.
+
+Lemma rt_map0 ty kt vt st : cls_ok F (ecls st) -> rt_post (TMap kt vt) (VMap 0 ty []) st (emit st [78]).
+Proof.
+  intros C. split; [exact C|]. split; [reflexivity|]. split; [split; cbn; lia|].
+  exists [78], (DMapV kt vt []), []. split; [apply ebytes_emit|]. split; [cbn; lia|]. split; [apply dg_map0|].
+  intros _ dst rest I. exists dst. split; [exact I|]. split; [rewrite app_nil_r; reflexivity|].
+  intros f Hf. rewrite need_d_map in Hf. cbn [need_dentries] in Hf. destruct f as [|[|f]]; try lia.
+  split; [|split; [intros a ty0 fs X; discriminate|]].
+  - rewrite rf_S. unfold rf_step. rewrite rm_S. reflexivity.
+  - intros _ _. exists DNil. split; [reflexivity|]. intros heap. reflexivity.
+Qed.
+
+Lemma rt_map ty e0 es kt vt st st' : kt <> TIface -> vt <> TIface ->
+  (forall mn, nm_lookup nm ty = Some mn -> Forall valid_rune mn /\ tm_lookup tm mn = Some (TMap kt vt)) ->
+  Forall key_ok (map fst (e0 :: es)) -> NoDup (map fst (e0 :: es)) ->
+  Forall (fun e => sgv kt (fst e) /\ sgv vt (snd e) /\ elem_pos_ok (snd e)) (e0 :: es) ->
+  Forall (fun e => rt_ok (snd e)) (e0 :: es) -> enm st = nm -> cls_ok F (ecls st) ->
+  match write_entries (e0 :: es) (map_prefix {| ecls := ecls st; erefs := erefs st ++ [(0, Encoder.RMap)]; enm := enm st; eout := eout st |} ty) with
+  | Ok s => Ok (emit s [g_endFlag]) | e => e end = Ok st' ->
+  rt_post (TMap kt vt) (VMap 0 ty (e0 :: es)) st st'.
+Proof.
+  intros NK NV HM KO ND HS HR En C W.
+  set (st1 := {| ecls := ecls st; erefs := erefs st ++ [(0, Encoder.RMap)]; enm := enm st; eout := eout st |}) in *.
+  destruct (map_prefix_bytes st1 ty En) as (P1 & P2 & P3 & PB).
+  set (st2 := map_prefix st1 ty) in *.
+  destruct (write_entries (e0 :: es) st2) as [s3| | |] eqn:WE; try discriminate. inversion W; subst st'. clear W.
+  assert (En2 : enm st2 = nm) by (rewrite P2; exact En).
+  assert (C2' : cls_ok F (ecls st2)) by (rewrite P3; exact C).
+  destruct (entries_rt kt vt NK NV (e0 :: es) HR KO ND HS st2 s3 En2 C2' WE) as (C2 & N2 & G2 & b2 & dvs & c2 & B2 & L2 & D2 & PE).
+  set (des := combine (map key_img (map fst (e0 :: es))) dvs) in *.
+  split; [exact C2|]. split; [cbn [emit enm]; rewrite N2, P2; reflexivity|].
+  split; [destruct G2 as [G21 G22]; split; cbn [emit erefs ecls]; [rewrite P1 in G21; cbn [erefs st1] in G21; rewrite app_length in G21; cbn in G21; lia|rewrite P3 in G22; exact G22]|].
+  exists (map_hdr ty ++ b2 ++ [90]), (DMapV kt vt des), (Decoder.RMap (Some (DMapV kt vt des)) :: c2).
+  split; [rewrite ebytes_emit, B2, PB, <- !app_assoc; reflexivity|].
+  split; [rewrite !app_length; cbn [length]; lia|].
+  split; [apply dg_map; rewrite P1 in D2; exact D2|].
+  intros Sm dst rest I. pose proof (Inv_len _ _ I) as IL. destruct I as [I1 I2].
+  assert (Sm3 : small s3) by exact Sm.
+  set (dstT := map_dstT dst ty).
+  assert (DTC : dcls dstT = dcls dst /\ dheap dstT = dheap dst) by (unfold dstT, map_dstT; destruct (nm_lookup nm ty); split; reflexivity).
+  destruct DTC as [DC DH].
+  assert (IP : Inv st2 (heap_push dstT (Decoder.RMap None))).
+  { split; [cbn; rewrite P3, DC; exact I1|]. cbn [heap_push dheap]. rewrite DH, map_app, I2, P1. cbn [erefs st1]. rewrite map_app. reflexivity. }
+  destruct (PE Sm3 (heap_push dstT (Decoder.RMap None)) rest IP) as (dst2 & J2 & H2h & V2). cbn [heap_push dheap] in H2h. rewrite DH in H2h.
+  set (dst' := heap_set dst2 (length (dheap dst)) (Decoder.RMap (Some (DMapV kt vt des)))).
+  assert (HH : dheap dst' = dheap dst ++ Decoder.RMap (Some (DMapV kt vt des)) :: c2).
+  { unfold dst', heap_set. cbn [dheap]. rewrite H2h, <- app_assoc. cbn [app]. apply list_set_app. }
+  exists dst'. split.
+  { destruct J2 as [J21 J22]. split; [exact J21|]. rewrite HH. cbn [emit erefs]. rewrite <- J22, H2h, <- app_assoc. rewrite !map_app. reflexivity. }
+  split; [exact HH|].
+  intros f Hf. rewrite need_d_map in Hf. destruct f as [|[|g]]; try lia.
+  assert (MB : forall g', (need_dentries (e0 :: es) <= g')%nat ->
+     map_body (readers_at te tm g') kt vt dstT (b2 ++ 90 :: rest) = Ok (DMapV kt vt des, rest, dst')).
+  { intros g' Hg'. unfold map_body. rewrite (V2 g' [] Hg') by (intros k _ k' v' []). cbn [bind app]. rewrite DH. reflexivity. }
+  replace ((map_hdr ty ++ b2 ++ [90]) ++ rest) with (map_hdr ty ++ b2 ++ 90 :: rest) by (rewrite <- !app_assoc; reflexivity).
+  destruct (map_dec (readers_at te tm g) dst ty kt vt (b2 ++ 90 :: rest) HM) as (_ & _ & RM & _).
+  destruct (map_dec (readers_at te tm (S g)) dst ty kt vt (b2 ++ 90 :: rest) HM) as (_ & _ & _ & RDm).
+  split; [|split].
+  - rewrite rf_S. unfold rf_step. rewrite rm_S, RM. apply MB. lia.
+  - intros a0 ty0 fs0 X. discriminate.
+  - intros _ EP. cbn [elem_pos_ok] in EP. exists (DMapV kt vt des). split.
+    + rewrite rd_S, (RDm EP). apply MB. lia.
+    + intros heap. cbn [set_value]. rewrite !gtype_eqb_refl. reflexivity.
 Qed.
 
 (* ---- the theorem ---- *)
@@ -713,10 +946,11 @@ Theorem graph_roundtrip : forall v, rt_ok v.
 Proof.
   induction v using gval_ind'; intros t st st' En Hs C W; try (inversion Hs; fail).
   - (* nil pointer *) inversion Hs; subst. cbn [write_data] in W. inversion W; subst st'.
-    eapply (rt_leaf _ VNil st [78] DNil); [apply dg_nil|intros; discriminate|exact C|cbn; lia|intros; reflexivity|intros; reflexivity].
+    eapply (rt_leaf _ VNil st [78] DNil); [apply dg_nil|intros; discriminate|exact C|cbn; lia|intros; reflexivity|].
+    intros f dst rest. exists DNil. split; [reflexivity|intros heap; reflexivity].
   - (* bool *) inversion Hs; subst. cbn [write_data] in W. inversion W; subst st'.
     eapply (rt_leaf TBool (VBool b) st _ (DBool b)); [apply dg_bool|intros; discriminate|exact C|cbn; lia|intros; apply field_bool_roundtrip|].
-    intros f dst rest. destruct b; reflexivity.
+    intros f dst rest. exists (DBool b). split; [destruct b; reflexivity|intros heap; reflexivity].
   - (* integers *) inversion Hs; subst. cbn [write_data] in W.
     destruct (enc_kind k z) as [bs| | |] eqn:E; inversion W; subst st'.
     assert (KI : k = KInt -> in_i32 z).
@@ -727,44 +961,52 @@ Proof.
     + rewrite BS. destruct (kind_wire_int k).
       * destruct (int_first_tag _ (swrap32_range z)) as (t0 & r0 & E0 & _). rewrite E0. cbn; lia.
       * destruct (long_first_tag _ (swrap64_range z)) as (t0 & r0 & E0 & _). rewrite E0. cbn; lia.
-    + intros f dst rest. pose proof (sv_int (dheap dst) k z ltac:(assumption) KI) as SV. rewrite BS.
-      destruct (kind_wire_int k); (eapply elem_of_rd; [rewrite rd_S; first [apply rdv_int; apply swrap32_range|apply rdv_long; apply swrap64_range]|exact SV|discriminate]).
+    + intros f dst rest. exists (if kind_wire_int k then DInt KInt32 (swrap 32 z) else DInt KInt64 (swrap 64 z)).
+      split; [|intros heap; apply sv_int; assumption]. rewrite BS, rd_S.
+      destruct (kind_wire_int k); [apply rdv_int; apply swrap32_range|apply rdv_long; apply swrap64_range].
   - (* float64 *) inversion Hs; subst. cbn [write_data] in W. unfold write_double in W.
     destruct (gencodeDouble b) as [bs| | |] eqn:E; inversion W; subst st'.
     match goal with H : in_f64 b |- _ => pose proof H as Hb; destruct (double_roundtrip b [] bs H E) as (d & D & Fq) end. rewrite app_nil_r in D.
     destruct (double_denotes b bs [] Hb E) as (t0 & tl0 & d0 & B0 & _).
     eapply (rt_leaf TF64 (VF64 b) st bs (DF64 d)); [apply dg_f64; exact Fq|intros; discriminate|exact C|rewrite B0; cbn; lia| |].
     + intros R dst rest. unfold rf_step. rewrite (decode_double_ext bs d D rest). reflexivity.
-    + intros f dst rest. eapply elem_of_rd; [rewrite rd_S; eapply rdv_double; eassumption|reflexivity|discriminate].
+    + intros f dst rest. exists (DF64 d). split; [rewrite rd_S; eapply rdv_double; eassumption|intros heap; reflexivity].
   - (* string *) inversion Hs; subst. cbn [write_data] in W. inversion W; subst st'.
     match goal with H : Forall valid_rune rs |- _ => pose proof H as V end.
     destruct (string_denotes rs [] V) as (t0 & tl0 & E0 & _).
     eapply (rt_leaf TStr (VStr rs) st _ (DStr rs)); [apply dg_str|intros; discriminate|exact C|rewrite E0; cbn; lia|intros; apply field_string_roundtrip; exact V|].
-    intros f dst rest. eapply elem_of_rd; [rewrite rd_S; apply rdv_str; exact V|reflexivity|discriminate].
+    intros f dst rest. exists (DStr rs). split; [rewrite rd_S; apply rdv_str; exact V|intros heap; reflexivity].
   - (* bytes *) inversion Hs; subst. cbn [write_data] in W. inversion W; subst st'. apply rt_bytes. exact C.
   - (* time *) inversion Hs; subst. cbn [write_data] in W. inversion W; subst st'.
     destruct (time_is_zero s n) eqn:Z0.
     + assert (G : gencodeDate s n = [78]) by (unfold gencodeDate; rewrite Z0; reflexivity). rewrite G.
-      eapply (rt_leaf TTime (VTime s n) st [78] (DTime zero_time_sec 0)); [apply dg_time0; exact Z0|intros; discriminate|exact C|cbn; lia|intros; reflexivity|intros; reflexivity].
+      eapply (rt_leaf TTime (VTime s n) st [78] (DTime zero_time_sec 0)); [apply dg_time0; exact Z0|intros; discriminate|exact C|cbn; lia|intros; reflexivity|].
+      intros f dst rest. exists DNil. split; [reflexivity|intros heap; reflexivity].
     + destruct (date_head s n Z0) as (t0 & tl & E & T).
       assert (DT : forall rest, decode_date_tag t0 (tl ++ rest) = Ok ((s, n - n mod 1000000), rest)).
       { intros rest. pose proof (date_roundtrip s n rest ltac:(assumption) ltac:(assumption) Z0) as DR. rewrite E in DR. cbn [app] in DR.
         unfold decode_date in DR. cbn [read_tag bind] in DR. exact DR. }
       eapply (rt_leaf TTime (VTime s n) st _ (DTime s (n - n mod 1000000))); [apply dg_time; exact Z0|intros; discriminate|exact C|rewrite E; cbn; lia| |].
       * intros R dst rest. rewrite E. cbn [app]. unfold rf_step. rewrite rs_date by exact T. rewrite DT. cbn [bind fst snd set_value]. reflexivity.
-      * intros f dst rest. rewrite E. cbn [app]. eapply elem_of_rd; [rewrite rd_S, rdv_date by exact T; rewrite DT; cbn [bind fst snd]; reflexivity|reflexivity|discriminate].
+      * intros f dst rest. rewrite E. cbn [app]. exists (DTime s (n - n mod 1000000)). split; [rewrite rd_S, rdv_date by exact T; rewrite DT; reflexivity|intros heap; reflexivity].
   - (* struct *)
-    inversion Hs as [| | | | | | | | |? ? ? c gfs NZ TA NL TM TE HN FFD Vc HF VF LN H2]; subst.
+    inversion Hs as [| | | | | | | | | |? ? ? c gfs NZ TA NL TM TE HN FFD Vc HF VF LN H2]; subst.
     rewrite write_data_struct in W. unfold check_ref in W.
     destruct (ref_find (erefs st) a RStruct 0) as [i|] eqn:RF.
     + inversion W; subst st'. apply rt_ref; [exact RF|apply dg_hit; exact RF|exact C].
     + eapply rt_struct_new; try eassumption. reflexivity.
   - (* list *)
-    inversion Hs as [| | | | | |? ? ? ltn NL NI TM V NE LN HS| | |]; subst.
+    inversion Hs as [| | | | | |? ? ? ltn NL NI TM V NE LN HS HP| | | |]; subst.
     rewrite write_data_slice in W. replace (if (length l =? 0)%nat then 0 else 0) with 0 in W by (destruct (length l =? 0)%nat; reflexivity).
     destruct (check_ref_zero st RSlice) as [st1 CR]. unfold check_ref in CR. rewrite ref_find_zero in CR. inversion CR; subst st1.
     unfold check_ref in W. rewrite ref_find_zero in W.
     eapply rt_slice; try eassumption.
+  - (* map *)
+    inversion Hs as [| | | | | | |? ? ? ? NK NV HM KO ND HS| | |]; subst.
+    assert (HR : Forall (fun e => rt_ok (snd e)) es) by (eapply Forall_impl; [|exact H]; intros e0 [_ X]; exact X).
+    rewrite write_data_map in W. destruct es as [|e0 es0].
+    + inversion W; subst st'. apply rt_map0. exact C.
+    + unfold check_ref in W. rewrite ref_find_zero in W. eapply rt_map; eassumption.
   - (* already written *)
     inversion Hs; subst. cbn [write_data] in W.
     destruct (ref_find (erefs st) a RStruct 0) as [i|] eqn:RF; [|discriminate]. inversion W; subst st'.
@@ -782,7 +1024,7 @@ Proof.
   intros Hs W Sm.
   destruct (graph_roundtrip _ _ (estate0 nm) st' eq_refl Hs (fun c fs0 (I : In (c, fs0) []) => match I with end) W)
     as (_ & _ & _ & bs & d & cells & B & _ & D & P).
-  inversion D as [| | | | | | | | |? ? ? ? ? RF|? ? ? ? ds cells' ? RF DS|]; subst; [discriminate|].
+  inversion D as [| | | | | | | | |? ? ? ? ? RF|? ? ? ? ds cells' ? RF DS| | |]; subst; [discriminate|].
   exists ds, cells'. split; [exact DS|]. intros f Hf.
   destruct (P Sm dstate0 [] (conj eq_refl eq_refl)) as (dst' & _ & HH & V).
   exists dst'. destruct (V f Hf) as [_ [V2 _]]. split; [|exact HH].
@@ -844,14 +1086,19 @@ Proof.
   destruct ((b =? a) && rkind_eqb k kb && negb (a =? 0)); [exact H|]. apply IH. exact H.
 Qed.
 Lemma dg_extends : forall refs v d cells refs', dg refs v d cells refs' -> exists more, refs' = refs ++ more
-with dgs_extends : forall refs l ds cells refs', dgs refs l ds cells refs' -> exists more, refs' = refs ++ more.
+with dgs_extends : forall refs l ds cells refs', dgs refs l ds cells refs' -> exists more, refs' = refs ++ more
+with dges_extends : forall refs l ds cells refs', dges refs l ds cells refs' -> exists more, refs' = refs ++ more.
 Proof.
   - intros refs v d cells refs' H. destruct H; try (exists []; rewrite app_nil_r; reflexivity).
     + destruct (dgs_extends _ _ _ _ _ H0) as [more E]. exists ((a, RStruct) :: more). rewrite E, <- app_assoc. reflexivity.
     + destruct (dgs_extends _ _ _ _ _ H) as [more E]. exists ((0, RSlice) :: more). rewrite E, <- app_assoc. reflexivity.
+    + destruct (dges_extends _ _ _ _ _ H) as [more E]. exists ((0, Encoder.RMap) :: more). rewrite E, <- app_assoc. reflexivity.
   - intros refs l ds cells refs' H. destruct H; [exists []; rewrite app_nil_r; reflexivity|].
     destruct (dg_extends _ _ _ _ _ H) as [m1 E1]. destruct (dgs_extends _ _ _ _ _ H0) as [m2 E2].
     exists (m1 ++ m2). rewrite E2, E1, <- app_assoc. reflexivity.
+  - intros refs l ds cells refs' H. destruct H; [exists []; rewrite app_nil_r; reflexivity|].
+    destruct (dg_extends _ _ _ _ _ H) as [m1 E1]. destruct (dg_extends _ _ _ _ _ H0) as [m2 E2]. destruct (dges_extends _ _ _ _ _ H1) as [m3 E3].
+    exists (m1 ++ m2 ++ m3). rewrite E3, E2, E1, <- !app_assoc. reflexivity.
 Qed.
 (* the pointer decoded at a position that holds (a pointer to) the object at address a is the
    ordinal a has in the reference table - in the table at the end of the message, too *)
